@@ -347,6 +347,9 @@ func (s *pState) render(cw *cwriter.Writer) (err error) {
 			close(s.iterDrop)
 			return err
 		}
+		// every row ends with a newline, so the cursor rests on the line below
+		// the last row: a frame as tall as the terminal scrolls it on every flush
+		height--
 	} else {
 		if s.reqWidth > 0 {
 			width = s.reqWidth
